@@ -1,6 +1,7 @@
 (* Dispatcher: one protocol line in, one observation line out.  This is the function the
    extracted driver (ocaml/driver.ml) and the in-Coq cross-check (Eval vm_compute) both run. *)
-From OA Require Import Bytes Proto ErrorCodes.
+From OA Require Import Bytes Proto ErrorCodes DevicePoll DeviceKinds.
+From Coq Require Import ZArith.
 
 Definition run_c14 (ws : list bytes) : bytes :=
   match ws with
@@ -28,10 +29,136 @@ Definition run_c14 (ws : list bytes) : bytes :=
   | _ => bad_case
   end.
 
+
+(* ---------------------------------------------------------------- C07 / C08: device poll loop *)
+
+Definition render_result (r : result) : bytes :=
+  match r with
+  | ROk t => s2b "ok:" ++ tok_bytes t
+  | RServer c d => s2b "server:" ++ tok_bytes c ++ ":"%char :: tok_opt d
+  | RParse b => s2b "parse:" ++ tok_bytes b
+  | ROtherErr => s2b "other"
+  | RRequestErr => s2b "request"
+  end.
+
+Definition render_event (e : event) : bytes :=
+  match e with
+  | ENow t => "N"%char :: dec_of_Z t
+  | EPoll => ["P"%char]
+  | ESleep d => "S"%char :: dec_of_N d
+  end.
+
+Definition render_outcome (o : outcome) : bytes :=
+  match o with
+  | OFinished k =>
+      match nth_error kinds (N.to_nat k) with
+      | Some kd => render_result (k_result kd)
+      | None => s2b "BADKIND"
+      end
+  | OExpired => render_result (RServer c_expired_token (Some expired_msg))
+  | OOther => render_result ROtherErr
+  | OStuck => s2b "STUCK"
+  end.
+
+Definition parse_interval (t : bytes) : option N :=
+  if is_kw "abs" t then Some 5%N else if is_kw "null" t then Some 5%N else N_of_dec t.
+
+Definition parse_script (t : bytes) : option (list reply) :=
+  sequence_opt (map (fun n => option_map k_class (find_kind n kinds)) (untok_words t)).
+
+Record poll_case := {
+  pcase_cfg : poll_cfg; pcase_clock : list Z; pcase_script : list reply
+}.
+
+Definition parse_poll_case (ws : list bytes) : option poll_case :=
+  match ws with
+  | [_variant; iv; bo; tmo; ex; rok; clk; scr] =>
+      match parse_interval iv, untok_optN bo, untok_optN tmo, N_of_dec ex, untok_bool rok,
+            untok_listZ clk, parse_script scr with
+      | Some iv, Some bo, Some tmo, Some ex, Some rok, Some clk, Some scr =>
+          Some {| pcase_cfg := {| pc_interval_s := iv; pc_expires_s := ex; pc_backoff := bo;
+                                  pc_timeout := tmo; pc_req_ok := rok |};
+                  pcase_clock := clk; pcase_script := scr |}
+      | _, _, _, _, _, _, _ => None
+      end
+  | _ => None
+  end.
+
+Definition run_poll (ws : list bytes) : bytes :=
+  match parse_poll_case ws with
+  | Some pc =>
+      let (tr, o) := poll_run (pcase_cfg pc) (pcase_clock pc) (pcase_script pc) in
+      unwords (render_outcome o :: (match polls tr with O => s2b "req=none" | S _ => s2b "req=same" end)
+               :: map render_event tr)
+  | None => bad_case
+  end.
+
+(* monitor: the implementation's observed waits against the C07 clauses *)
+Fixpoint obs_sleeps (ws : list bytes) : option (list N) :=
+  match ws with
+  | [] => Some []
+  | ("S"%char :: d) :: r =>
+      match N_of_dec d, obs_sleeps r with
+      | Some d, Some l => Some (d :: l)
+      | _, _ => None
+      end
+  | _ :: r => obs_sleeps r
+  end.
+Fixpoint obs_events (ws : list bytes) : option (list event) :=
+  match ws with
+  | [] => Some []
+  | w :: r =>
+      match obs_events r with
+      | None => None
+      | Some l =>
+          match w with
+          | "S"%char :: d => option_map (fun d => ESleep d :: l) (N_of_dec d)
+          | "N"%char :: t => option_map (fun t => ENow t :: l) (Z_of_dec t)
+          | ["P"%char] => Some (EPoll :: l)
+          | _ => None
+          end
+      end
+  end.
+
+Fixpoint split_bar (ws : list bytes) : list bytes * list bytes :=
+  match ws with
+  | [] => ([], [])
+  | w :: r => if is_kw "|" w then ([], r) else let (a, b) := split_bar r in (w :: a, b)
+  end.
+
+Definition monitor_poll (ws : list bytes) : bytes :=
+  let (cw, ow) := split_bar ws in
+  match parse_poll_case cw, ow with
+  | Some pc, [res] => if is_kw "PANIC" res then s2b "fail panic" else bad_case
+  | Some pc, res :: rq :: evs =>
+      if is_kw "req=diff" rq then s2b "fail request-changed" else
+      match obs_events evs with
+      | None => bad_case
+      | Some tr =>
+          let c := pcase_cfg pc in
+          let ds := sleeps tr in
+          if negb (sleeps_okb (ceiling_of c) (pc_interval_s c * NS) (pcase_script pc) ds)
+          then s2b "fail step-clause"
+          else if negb (all_geb ds (floors (pc_interval_s c * NS) (pcase_script pc)))
+          then s2b "fail floor"
+          else match tr with
+               | ENow _ :: tr' =>
+                   if match tr' with [] => true | _ => shape_okb tr' end then s2b "ok"
+                   else s2b "fail shape"
+               | _ => s2b "fail shape"
+               end
+      end
+  | _, _ => bad_case
+  end.
+
 Definition run_line (line : bytes) : bytes :=
   match words line with
   | p :: ws =>
       if is_kw "C14" p then run_c14 ws
+      else if is_kw "POLL" p then run_poll ws
+      else if is_kw "POLLM" p then monitor_poll ws
+      else if is_kw "BOUNDS" p then
+        unwords [dec_of_N MAXDELTA; dec_of_Z DTMAX; dec_of_Z DTMIN; dec_of_N DMAX]
       else bad_case
   | [] => bad_case
   end.
